@@ -2,6 +2,7 @@
 effect on the resource table, the frame of `step`. -/
 import AsphaltModel.Context
 import AsphaltProofs.Lemmas.Assoc
+import AsphaltProofs.Lemmas.ExitWith
 
 namespace Asphalt
 
@@ -410,6 +411,22 @@ theorem freshCtx_resOK (p : Option CtxId) (o : Option Ctx) (h : ∀ px, o = some
   | none => exact ResOK_nil
   | some px => exact ResOK_filter _ (h px rfl)
 
+theorem WorldOK_exitWith (w : World) (t : TaskId) (c : CtxId) (be : BlockEnd)
+    (stk : List Cb → List Cb) (hw : WorldOK w) : WorldOK (exitWith w t c be stk).1 := by
+  simp only [exitWith]
+  split
+  · exact hw
+  · rename_i x hx
+    split
+    · exact hw
+    · have ht := runTeardown_resOK c (w.curOf t) be (stk x.tds) { x with state := .closing, tds := [] } (hw c x hx)
+      generalize runTeardown c (w.curOf t) be (stk x.tds) { x with state := .closing, tds := [] } = r at ht
+      obtain ⟨x2, tr, excs⟩ := r
+      dsimp only
+      apply WorldOK_removeChild
+      apply WorldOK_setCur
+      exact WorldOK_setCtx _ _ _ hw ht
+
 theorem WorldOK_step (w : World) (op : Op) (hw : WorldOK w) : WorldOK (step w op).1 := by
   cases op with
   | new t c parent =>
@@ -437,20 +454,8 @@ theorem WorldOK_step (w : World) (op : Op) (hw : WorldOK w) : WorldOK (step w op
           · exact h1
           · rename_i p hp _ px hpx
             exact WorldOK_setCtx _ _ _ h1 (h1 p px hpx)
-  | exit t c be =>
-    simp only [step]
-    split
-    · exact hw
-    · rename_i x hx
-      split
-      · exact hw
-      · have ht := runTeardown_resOK c (w.curOf t) be (effStack be x.tds) { x with state := .closing, tds := [] } (hw c x hx)
-        generalize runTeardown c (w.curOf t) be (effStack be x.tds) { x with state := .closing, tds := [] } = r at ht
-        obtain ⟨x2, tr, excs⟩ := r
-        dsimp only
-        apply WorldOK_removeChild
-        apply WorldOK_setCur
-        exact WorldOK_setCtx _ _ _ hw ht
+  | exit t c be => rw [step_exit_exitWith]; exact WorldOK_exitWith w t c be _ hw
+  | exitMid t c be k => rw [step_exitMid_exitWith]; exact WorldOK_exitWith w t c be _ hw
   | add c a => exact WorldOK_onCtx _ _ _ hw (fun x hx => ctxAdd_resOK _ _ _ hx)
   | addFactory c a =>
     exact WorldOK_onCtx _ _ _ hw (fun x hx => by
@@ -551,21 +556,31 @@ theorem step_enter_frame (w : World) (t : TaskId) (c' c : CtxId) (h : c' ≠ c) 
         · exact .inl h1
         · rw [← h1]; exact setChildren_frame _ _ _ _ _ ‹_›
 
-theorem step_exit_frame (w : World) (t : TaskId) (c' : CtxId) (be : BlockEnd) (c : CtxId)
-    (h : c' ≠ c) : ChildrenOnly (w.ctx? c) ((step w (.exit t c' be)).1.ctx? c) := by
-  simp only [step]
+theorem exitWith_frame (w : World) (t : TaskId) (c' : CtxId) (be : BlockEnd)
+    (stk : List Cb → List Cb) (c : CtxId)
+    (h : c' ≠ c) : ChildrenOnly (w.ctx? c) ((exitWith w t c' be stk).1.ctx? c) := by
+  simp only [exitWith]
   split
   · exact .inl rfl
   · rename_i x hx
     split
     · exact .inl rfl
-    · generalize runTeardown c' (w.curOf t) be (effStack be x.tds) { x with state := .closing, tds := [] } = r
+    · generalize runTeardown c' (w.curOf t) be (stk x.tds) { x with state := .closing, tds := [] } = r
       obtain ⟨x2, tr, excs⟩ := r
       dsimp only
       have h1 : (((w.setCtx c' { x2 with state := .closed }).setCur t (x.token.getD none))).ctx? c
           = w.ctx? c := ctx?_setCtx_other _ _ _ _ h
       rw [← h1]
       exact removeChild_frame _ _ _ _
+
+theorem step_exit_frame (w : World) (t : TaskId) (c' : CtxId) (be : BlockEnd) (c : CtxId)
+    (h : c' ≠ c) : ChildrenOnly (w.ctx? c) ((step w (.exit t c' be)).1.ctx? c) := by
+  rw [step_exit_exitWith]; exact exitWith_frame w t c' be _ c h
+
+theorem step_exitMid_frame (w : World) (t : TaskId) (c' : CtxId) (be : BlockEnd) (k : Nat)
+    (c : CtxId) (h : c' ≠ c) :
+    ChildrenOnly (w.ctx? c) ((step w (.exitMid t c' be k)).1.ctx? c) := by
+  rw [step_exitMid_exitWith]; exact exitWith_frame w t c' be _ c h
 
 theorem step_inject_frame (w : World) (t : TaskId) (isAsync : Bool) (deps : List Dep)
     (badUnion : Bool) (c : CtxId) (h : w.curOf t ≠ some c) :
